@@ -196,7 +196,7 @@ Proof.
 Qed.
 
 Example C12_example_kwargs :
-  distance_init "minkowski" [("name", 0%nat); ("w", 1%nat); ("p", 2%nat)]
+  distance_init "minkowski"%string [("name"%string, 0%nat); ("w"%string, 1%nat); ("p"%string, 2%nat)]
   = Some ("minkowski"%string, [("p"%string, 2%nat); ("w"%string, 1%nat)], [("name"%string, 0%nat)])
-  /\ distance_init "seuclidean" [("p", 2%nat)] = None.
+  /\ distance_init "seuclidean"%string [("p"%string, 2%nat)] = None.
 Proof. split; vm_compute; reflexivity. Qed.
